@@ -88,6 +88,17 @@ type recC[G any] struct {
 	LAST  string
 }
 
+// leadingBlank: some string attribute of the case starts with a blank (known finding leading_blank_lost: the DBF reader
+// of the dependency go-shp strips blanks on both sides of a character field, not only the padding on the right)
+func leadingBlank(c Case) bool {
+	for _, r := range c.Recs {
+		if strings.HasPrefix(r.S, " ") || strings.HasPrefix(r.S2, " ") {
+			return true
+		}
+	}
+	return false
+}
+
 func genString(t *rapid.T) string {
 	pieces := []string{"a", "B", "z", "0", "9", " ", " ", "-", "_", ".", ",", "'", "\"", "é", "漢", "/", "\\", "%", "x", "Q"}
 	n := rapid.IntRange(0, 30).Draw(t, "slen")
@@ -99,7 +110,13 @@ func genString(t *rapid.T) string {
 		}
 		sb.WriteString(p)
 	}
-	return strings.Trim(sb.String(), " ") // DBF cannot represent leading/trailing blanks
+	// DBF pads a value with blanks to the width of its field, so it cannot tell a trailing blank from padding; a leading
+	// blank it can hold (see the known finding leading_blank_lost)
+	out := strings.TrimRight(sb.String(), " ")
+	if rapid.IntRange(0, 24).Draw(t, "leadingblank") != 0 {
+		out = strings.TrimLeft(out, " ") // cases of the known finding are set aside whole: keep them few
+	}
+	return out
 }
 
 func genRec(t *rapid.T, shape string) Rec {
@@ -674,7 +691,8 @@ func TestProp(t *testing.T) {
 			"The geometries handed to the encoder have their point lists cut out of one flat array (consecutive sub-slices with spare capacity), which must come back unchanged. Oracle: same number and order of records, coordinates bit-identical with line strings as parts, rings in stored order with unclosed rings closed, boxes as 5-vertex " +
 			"rectangles; ints equal, strings equal, floats within 5.1e-11; Decoder.Error nil. Non-trivial = >=2 records with string attributes of different lengths, or a multi-part geometry. Distinct by case hash." +
 			" Round 9: boxes are expected back as five vertices spelled out (a box without height included).",
-		Assumptions: []string{"strings with leading/trailing blanks are excluded: DBF pads with blanks and the reader trims them", "a LineString is read back into a MultiLineString or geom.Geom field, never into a LineString field"},
+		Assumptions: []string{"strings with trailing blanks are excluded: DBF pads a value with blanks to the width of its field and cannot tell the two apart (leading blanks are generated: known finding leading_blank_lost)", "a LineString is read back into a MultiLineString or geom.Geom field, never into a LineString field"},
+		Known:       map[string]func(Case) bool{"leading_blank_lost": leadingBlank},
 		Gen:         gen,
 		Run:         run,
 	})
